@@ -66,6 +66,7 @@ package container
 //@   at return use L-sum-top(elems(c.compartments), soff(c.compartments) + c.offset, soff(c.compartments) + old(len(c.compartments)) + 1)
 //@   at return assert sumRow(elems(c.compartments), soff(c.compartments) + c.offset, soff(c.compartments) + old(len(c.compartments)) + 1) == old(clen(c)) + len(data)
 //@   ensures c.offset == old(c.offset) && len(c.compartments) == old(len(c.compartments)) + 1
+//@   ensures sameBase(c.compartments, old(c.compartments)) || fresh(c.compartments)
 //@   ensures wf(c)
 //@   ensures clen(c) == old(clen(c)) + len(data)
 
@@ -97,6 +98,7 @@ package container
 //@   at return assert sumRow(elems(c.compartments), soff(c.compartments) + c.offset + 1, soff(c.compartments) + len(c.compartments)) == old(clen(c))
 //@   at return use L-sum-front(elems(c.compartments), soff(c.compartments) + c.offset, soff(c.compartments) + len(c.compartments))
 //@   ensures elems(c.compartments)[soff(c.compartments) + c.offset] == data
+//@   ensures sameBase(c.compartments, old(c.compartments)) || fresh(c.compartments)
 //@   ensures wf(c)
 //@   ensures clen(c) == old(clen(c)) + len(data)
 
@@ -239,6 +241,7 @@ package container
 //@   at return assert sumRow(elems(c.compartments), soff(c.compartments) + c.offset, soff(c.compartments) + old(len(c.compartments))) == old(clen(c))
 //@   at return use L-sum-top(elems(c.compartments), soff(c.compartments) + c.offset, soff(c.compartments) + old(len(c.compartments)) + 1)
 //@   ensures c.offset == old(c.offset) && len(c.compartments) == old(len(c.compartments)) + 1
+//@   ensures sameBase(c.compartments, old(c.compartments)) || fresh(c.compartments)
 //@   ensures wf(c)
 //@   ensures clen(c) == old(clen(c)) + vlen(n)
 
@@ -254,13 +257,14 @@ package container
 //@   at return assert sumRow(elems(c.compartments), soff(c.compartments) + c.offset, soff(c.compartments) + old(len(c.compartments))) == old(clen(c))
 //@   at return use L-sum-top(elems(c.compartments), soff(c.compartments) + c.offset, soff(c.compartments) + old(len(c.compartments)) + 1)
 //@   ensures c.offset == old(c.offset) && len(c.compartments) == old(len(c.compartments)) + 1
+//@   ensures sameBase(c.compartments, old(c.compartments)) || fresh(c.compartments)
 //@   ensures wf(c)
 //@   ensures clen(c) == old(clen(c)) + vlen(uint64(n))
 
 //@ func (*Container).PrependNumber
 //@   requires wf(c)
 //@   modifies c.compartments, c.offset, elems(c.compartments)
-//@   ensures wf(c) && clen(c) == old(clen(c)) + vlen(n)
+//@   ensures wf(c) && clen(c) == old(clen(c)) + vlen(n) && (sameBase(c.compartments, old(c.compartments)) || fresh(c.compartments))
 
 //@ func (*Container).PrependInt
 //@   requires wf(c)
@@ -328,7 +332,7 @@ package container
 //@   ensures r0 == elems(c.compartments)[soff(c.compartments) + c.offset] && len(c.compartments) - c.offset == 1
 //@   loop 0 invariant c.offset <= i && i <= len(c.compartments) && c.compartments == old(c.compartments) && c.offset == old(c.offset)
 //@   loop 0 invariant elems(c.compartments) == old(elems(c.compartments)) && fresh(newBuf) && len(newBuf) == old(clen(c))
-//@   loop 0 invariant len(copyBuf) == sumRow(elems(c.compartments), soff(c.compartments) + i, soff(c.compartments) + len(c.compartments)) && len(copyBuf) == cap(copyBuf)
+//@   loop 0 invariant len(copyBuf) == sumRow(elems(c.compartments), soff(c.compartments) + i, soff(c.compartments) + len(c.compartments)) && len(copyBuf) == cap(copyBuf) && sameBase(copyBuf, newBuf)
 //@   loop 0 use L-sum-front(elems(c.compartments), soff(c.compartments) + i, soff(c.compartments) + len(c.compartments))
 //@   loop 0 decreases len(c.compartments) - i
 //@   at return use L-sum-top(elems(c.compartments), soff(c.compartments) + c.offset, soff(c.compartments) + c.offset + 1)
@@ -345,7 +349,7 @@ package container
 //@   ensures len(slice) <= old(clen(c)) ==> n == len(slice) && clen(c) == old(clen(c)) - len(slice)
 //@   ensures len(slice) > old(clen(c)) ==> n == old(clen(c)) && clen(c) == 0
 //@   ensures containerEmptied ==> clen(c) == 0
-//@   loop 0 invariant old(c.offset) <= i && i <= len(c.compartments) && n >= 0 && c.offset == i && len(slice) == old(len(slice)) - n
+//@   loop 0 invariant old(c.offset) <= i && i <= len(c.compartments) && n >= 0 && c.offset == i && len(slice) == old(len(slice)) - n && sameBase(slice, old(slice))
 //@   loop 0 invariant forall k int :: soff(c.compartments) <= k && k < soff(c.compartments) + i ==> len(elems(c.compartments)[k]) == 0
 //@   loop 0 invariant forall k int :: soff(c.compartments) + i <= k && k < soff(c.compartments) + len(c.compartments) ==> elems(c.compartments)[k] == row0[k]
 //@   loop 0 invariant sumRow(row0, soff(c.compartments) + old(c.offset), soff(c.compartments) + i) == n
@@ -364,7 +368,9 @@ package container
 //@   at return#1 use L-sum-shift(elems(c.compartments), row0, soff(c.compartments) + i + 1, soff(c.compartments) + i + 1, soff(c.compartments) + len(c.compartments), soff(c.compartments) + len(c.compartments))
 //@   at return#1 assert sumRow(elems(c.compartments), soff(c.compartments) + i + 1, soff(c.compartments) + len(c.compartments)) == sumRow(row0, soff(c.compartments) + i + 1, soff(c.compartments) + len(c.compartments))
 //@   at return#1 use L-sum-front(elems(c.compartments), soff(c.compartments) + i, soff(c.compartments) + len(c.compartments))
-//@   at return#1 assert clen(c) == old(clen(c)) - old(len(slice)) && n == old(len(slice))
+//@   at return#1 assert n == old(len(slice)) && len(elems(c.compartments)[soff(c.compartments) + i]) == len(row0[soff(c.compartments) + i]) - (old(len(slice)) - sumRow(row0, soff(c.compartments) + old(c.offset), soff(c.compartments) + i))
+//@   at return#1 assert clen(c) == len(elems(c.compartments)[soff(c.compartments) + i]) + sumRow(row0, soff(c.compartments) + i + 1, soff(c.compartments) + len(c.compartments))
+//@   at return#1 assert clen(c) == old(clen(c)) - old(len(slice))
 
 //@ func (*Container).GetNextBlockAsContainer
 //@   requires wf(c)
